@@ -126,6 +126,20 @@ def presp : P RespScript := do
 answer travelling with it (the model cannot look inside `β`). -/
 abbrev B := Body × RespScript
 
+/-- optional readiness marker before a call: `!p` pending, `!e<n>` error n -/
+def pready : P (Poll Nat) := do
+  let ts ← get
+  match ts with
+  | t :: _ =>
+    if t == "!p" then do let _ ← next; pure .pending
+    else if t.startsWith "!e" then do
+      let _ ← next
+      match (t.drop 2).toNat? with
+      | some n => pure (.err n)
+      | none => failure
+    else pure .ready
+  | [] => pure .ready
+
 def pcall : P (Request B) := do
   let method ← pbytes
   let version ← pnat
@@ -139,6 +153,8 @@ def pcall : P (Request B) := do
 structure Case where
   scripts : List Script
   calls : List (Request B)
+  /-- the wrapped service's readiness before each call -/
+  readiness : List (Poll Nat)
 
 def pcase : P Case := do
   let _kind ← next
@@ -146,8 +162,11 @@ def pcase : P Case := do
   let ns ← pnat
   let scripts ← rep pscript ns
   let nc ← pnat
-  let calls ← rep pcall nc
-  pure { scripts := scripts, calls := calls }
+  let calls ← rep (do
+    let r ← pready
+    let c ← pcall
+    pure (r, c)) nc
+  pure { scripts := scripts, calls := calls.map (·.2), readiness := calls.map (·.1) }
 
 def parseCase (ts : List String) : Option Case :=
   match pcase ts with
@@ -192,7 +211,38 @@ def showSaw : Option (Request B) → String
 /-- the scripted wrapped service: counts invocations, answers with the script carried in the body -/
 def recorder : Inner Nat B Body Nat := fun n r => (n + 1, r.body.2)
 
+def callLine (l : (Hdrs × Ext) × Except GStatus (Hdrs × Ext)) (saw : Option (Request B))
+    (out : Outcome Body Nat) : Option String :=
+  let isaw := s!"isaw {showHdrs l.1.1} {showExt l.1.2}"
+  let dec := match l.2 with
+    | .ok (md, x) => s!"iret {showHdrs md} {showExt x}"
+    | .error st => s!"irej {showStatus st}"
+  match showOutcome out with
+  | none => none
+  | some o => some s!"{isaw} {dec} {showSaw saw} {o}"
+
+/-- sequences with back-pressure: a call is made only when `pollReady` says ready -/
+def runWithReadiness (scripts : List Script) :
+    (Nat × List ((Hdrs × Ext) × Except GStatus (Hdrs × Ext))) → Nat → List (Poll Nat × Request B) →
+    List (Option String) → List (Option String) × Nat
+  | _, n, [], acc => (acc, n)
+  | s, n, (rd, r) :: rest, acc =>
+    match pollReady (fun (_ : Nat) => rd) n with
+    | .pending => runWithReadiness scripts s n rest (acc ++ [some "notready pending"])
+    | .err e => runWithReadiness scripts s n rest (acc ++ [some s!"notready err {e}"])
+    | .ready =>
+      let c := call (logged (scripted scripts)) recorder s n r
+      let line := match c.icpt.2.getLast? with
+        | some l => callLine l c.innerSaw c.out
+        | none => none
+      runWithReadiness scripts c.icpt c.inner rest (acc ++ [line])
+
 def runModel (c : Case) : String :=
+  if c.readiness.any (fun r => r != Poll.ready) then
+    let (lines, n) := runWithReadiness c.scripts (0, []) 0 (c.readiness.zip c.calls) []
+    if lines.any Option.isNone then "panic"
+    else String.intercalate " " (lines.filterMap id ++ [s!"calls {n}"])
+  else
   let (st, ncalls, results) := runCalls (logged (scripted c.scripts)) recorder (0, []) 0 c.calls
   let log := st.2
   let lines := (log.zip results).map (fun (l, res) =>
@@ -352,18 +402,50 @@ def callClauses (req : Request B) (script : Option Script) (o : ObsCall) : List 
         [("reject-size-hint-zero", oo.lo == 0 && oo.hi == some 0)]
     input ++ view
 
+/-- one call's observation: either the service reported not ready (no call made) or a call -/
+def ocallOrNotReady : P (Except (Poll Nat) ObsCall) := do
+  let ts ← get
+  match ts with
+  | "notready" :: _ => do
+    let _ ← next
+    let t ← next
+    if t == "pending" then pure (.error .pending)
+    else if t == "err" then do
+      let n ← pnat
+      pure (.error (.err n))
+    else failure
+  | _ => do
+    let o ← ocall
+    pure (.ok o)
+
 def specVerdict (c : Case) (obs : List String) : String :=
   if obs == ["panic"] then "fail:panic"
-  else match pobs c.calls.length obs with
-  | some ((ocs, ncalls), []) =>
-    let n := c.scripts.length
-    let perCall := (c.calls.zip ocs).zipIdx.map (fun ((req, o), k) =>
-      callClauses req (if n == 0 then none else c.scripts[k % n]?) o)
-    let accepts := (ocs.filter (fun o => match o.decision with
-      | .accept _ _ => true
-      | .reject _ => false)).length
-    verdict (perCall.flatten ++ [("inner-call-count", ncalls == accepts)])
-  | _ => "fail:unparseable-observation"
+  else
+    let p : P (List (Except (Poll Nat) ObsCall) × Nat) := do
+      let cs ← rep ocallOrNotReady c.calls.length
+      let t ← next
+      if t != "calls" then failure
+      let k ← pnat
+      pure (cs, k)
+    match p obs with
+    | some ((ocs, ncalls), []) =>
+      let n := c.scripts.length
+      -- `cnt` = number of calls the interceptor has seen (its script index)
+      let rec go : List ((Poll Nat × Request B) × Except (Poll Nat) ObsCall) → Nat → List (String × Bool)
+        | [], _ => []
+        | ((rd, req), o) :: rest, cnt =>
+          match o with
+          | .error p => ("readiness-is-wrapped-services", p == rd && rd != Poll.ready) :: go rest cnt
+          | .ok oc =>
+            ("readiness-is-wrapped-services", rd == Poll.ready) ::
+              (callClauses req (if n == 0 then none else c.scripts[cnt % n]?) oc ++ go rest (cnt + 1))
+      let accepts := (ocs.filter (fun o => match o with
+        | .ok oc => (match oc.decision with
+          | .accept _ _ => true
+          | .reject _ => false)
+        | .error _ => false)).length
+      verdict (go ((c.readiness.zip c.calls).zip ocs) 0 ++ [("inner-call-count", ncalls == accepts)])
+    | _ => "fail:unparseable-observation"
 
 /-! ### client kind: `Grpc<InterceptedService<Mock, F>>::server_streaming` -/
 
